@@ -125,6 +125,30 @@ def wirings(spa, full=True):
             ib = [i for i, x in enumerate(lb) if x.startswith(dev)]
             if ia and ib:
                 out.append((f"{a}={la[ia[0]]},{b}={lb[ib[-1]]}", [(a, ia[0]), (b, ib[-1])]))
+    # every pair (and the maximal set) of DIFFERENT devices wired at the same time, on whichever outputs offer them
+    devs = list(spa.struct.all_devices)
+    offer = {}
+    for dev in devs:
+        for o in outs:
+            idx = [i for i, x in enumerate(acc[o].items) if x.startswith(dev)]
+            if idx:
+                offer.setdefault(dev, []).append((o, idx[0]))
+    for d1, d2 in itertools.combinations([d for d in devs if d in offer], 2):
+        for (o1, i1), (o2, i2) in itertools.product(offer[d1][:2], offer[d2][:2]):
+            if o1 != o2:
+                out.append((f"{o1}={acc[o1].items[i1]},{o2}={acc[o2].items[i2]}", [(o1, i1), (o2, i2)]))
+                break
+    used, w = set(), []
+    for dev in devs:
+        for o, i in offer.get(dev, []):
+            if o not in used:
+                used.add(o)
+                w.append((o, i))
+                break
+    if w:
+        out.append(("maximal:" + ",".join(f"{o}={acc[o].items[i]}" for o, i in w), w))
+        for k in range(len(w)):
+            out.append((f"maximal-minus-{w[k][0]}", w[:k] + w[k + 1:]))
     labels = sorted({lab for o in outs for lab in acc[o].items})
     for lab in labels:
         w = [(o, acc[o].items.index(lab)) for o in outs if lab in acc[o].items]
